@@ -542,3 +542,6 @@ func Pick[T any](r *rand.Rand, xs []T) T { return xs[r.IntN(len(xs))] }
 
 // Chance returns true with probability p.
 func Chance(r *rand.Rand, p float64) bool { return r.Float64() < p }
+
+// Local reads a counter of this case (before it is merged).
+func (k *Case) Local(name string) int64 { return k.counts[name] }
